@@ -1,7 +1,9 @@
 """Gen/HashSites.lean: every place in src/topsearch where a `set` is built (set(...) call,
 set literal, set comprehension) — the only containers whose iteration order can depend on the
 interpreter's hash seed.  Each site is recorded as (file, function, normalised source of the
-expression).  The justified list lives in the Lean file next to the theorem that checks inclusion."""
+expression, with the function's own local names replaced by v0, v1, … in order of first binding so that renaming a
+local does not move a site off the list).  The justified list lives in the Lean file next to the theorem that checks
+inclusion."""
 from __future__ import annotations
 
 import ast
@@ -13,23 +15,43 @@ from .base import write_if_changed
 # the list that counts is `justified` in the generated Lean file, compared by the theorem)
 JUSTIFIED = [
     ("analysis/graph_properties.py", "unconnected_component", "set(range(ktn.n_minima))", "ints"),
-    ("analysis/graph_properties.py", "unconnected_component", "set(connected_set)", "ints"),
+    ("analysis/graph_properties.py", "unconnected_component", "set(v2)", "ints (connected_set)"),
     ("analysis/pair_selection.py", "connect_to_set", "set(range(ktn.n_minima))", "ints"),
-    ("analysis/pair_selection.py", "connect_to_set", "set(s_set)", "ints"),
+    ("analysis/pair_selection.py", "connect_to_set", "set(v0)", "ints (s_set)"),
     ("analysis/pair_selection.py", "connect_to_set", "set()", "empty"),
-    ("analysis/pair_selection.py", "unique_pairs", "set(final_pairs)", "tuples of ints"),
-    ("analysis/batch_selection.py", "get_excluded_minima", "set(excluded_minima)", "ints"),
-    ("data/coordinates.py", "get_rotatable_dihedrals", "set((tuple(x) for x in self.rotatable_dihedrals))",
+    ("analysis/pair_selection.py", "unique_pairs", "set(v0)", "tuples of ints (final_pairs)"),
+    ("analysis/batch_selection.py", "get_excluded_minima", "set(v2)", "ints (excluded_minima)"),
+    ("data/coordinates.py", "get_rotatable_dihedrals", "set((tuple(v11) for v11 in self.rotatable_dihedrals))",
      "tuples of ints (atom indices)"),
-    ("data/coordinates.py", "get_rotatable_dihedrals", "set((tuple(x) for x in removals))",
+    ("data/coordinates.py", "get_rotatable_dihedrals", "set((tuple(v11) for v11 in v8))",
      "tuples of ints (atom indices)"),
-    ("data/coordinates.py", "remove_repeat_angles", "set([i[1] for i in angles])", "ints (atom indices)"),
+    ("data/coordinates.py", "remove_repeat_angles", "set([v1[1] for v1 in angles])", "ints (atom indices)"),
     ("similarity/molecular_similarity.py", "get_permutable_groups", "set(coords1.atom_labels)",
      "strings: order irrelevant by C11_group_order_irrelevant"),
     ("similarity/molecular_similarity.py", "get_permutable_groups",
-     "set((tuple(sorted(row)) for row in elements_bonds1))",
+     "set((tuple(sorted(v13)) for v13 in v10))",
      "tuples of strings: order irrelevant by C11_group_order_irrelevant"),
 ]
+
+
+class _Rename(ast.NodeTransformer):
+    def __init__(self, names):
+        self.names = names
+
+    def visit_Name(self, node):
+        return ast.copy_location(ast.Name(id=self.names.get(node.id, node.id), ctx=node.ctx), node)
+
+
+def local_names(fn: ast.FunctionDef) -> dict[str, str]:
+    """the names a function binds itself (not its parameters), numbered in textual order of first binding: a site is
+    recorded with these renamed, so that renaming a local does not move a justified site off the list"""
+    params = {a.arg for a in fn.args.args + fn.args.kwonlyargs + fn.args.posonlyargs}
+    stores = sorted(((n.lineno, n.col_offset, n.id) for n in ast.walk(fn)
+                     if isinstance(n, ast.Name) and isinstance(n.ctx, ast.Store) and n.id not in params))
+    out: dict[str, str] = {}
+    for _, _, name in stores:
+        out.setdefault(name, f"v{len(out)}")
+    return out
 
 
 def scan() -> list[tuple[str, str, str]]:
@@ -38,15 +60,20 @@ def scan() -> list[tuple[str, str, str]]:
         rel = str(path.relative_to(SRC))
         tree = ast.parse(path.read_text())
         funcs = []
+        renames = []
 
         class V(ast.NodeVisitor):
             def visit_FunctionDef(self, node):
                 funcs.append(node.name)
+                renames.append(local_names(node))
                 self.generic_visit(node)
                 funcs.pop()
+                renames.pop()
 
             def _site(self, node):
-                sites.append((rel, funcs[-1] if funcs else "<module>", ast.unparse(node)))
+                import copy
+                n2 = _Rename(renames[-1]).visit(copy.deepcopy(node)) if renames else node
+                sites.append((rel, funcs[-1] if funcs else "<module>", ast.unparse(n2)))
 
             def visit_Call(self, node):
                 if isinstance(node.func, ast.Name) and node.func.id in ("set", "frozenset"):
